@@ -54,14 +54,14 @@ var gnativePkgs = []string{"internal/bgp/native"}
 var kspkPkgs = []string{"speaker", "internal/layer2", "internal/config", "internal/k8s/controllers", "internal/k8s", "internal/k8s/epslices", "internal/k8s/nodes", "internal/bgp", "internal/bgp/community", "internal/bgp/frr", "internal/bgp/frrk8s"}
 
 var kspkComponents = map[string]string{
-	"speaker controller (SetBalancer/SetConfig/SetNode), layer2Controller, bgpController":        "real (map ranges rewritten to a chosen order)",
-	"layer2.Announce bookkeeping (SetBalancer/DeleteBalancer/shouldAnnounce)":                     "real, constructed without goroutines (no OS interface scan, no responders)",
+	"speaker controller (SetBalancer/SetConfig/SetNode), layer2Controller, bgpController":           "real (map ranges rewritten to a chosen order)",
+	"layer2.Announce bookkeeping (SetBalancer/DeleteBalancer/shouldAnnounce)":                       "real, constructed without goroutines (no OS interface scan, no responders)",
 	"controllers.ServiceReconciler (endpoint slices), ConfigReconciler, NodeReconciler + predicate": "real",
-	"internal/config (config.For), k8s.Listener":                                                   "real",
-	"Kubernetes API server, informer caches, work queues":                                          "simulated (simk8s), one cache and three queues per speaker",
-	"hashicorp/memberlist (internal/speakerlist)":                                                  "stub behind the SpeakerList interface: ground-truth membership, lagging views, false suspicion",
-	"BGP session manager":                                                                          "recording stub (arguments of the last Set per live session)",
-	"MetalLB controller":                                                                           "played by the environment (writes pool-consistent status addresses, clears orphaned ones)",
+	"internal/config (config.For), k8s.Listener":                                                    "real",
+	"Kubernetes API server, informer caches, work queues":                                           "simulated (simk8s), one cache and three queues per speaker",
+	"hashicorp/memberlist (internal/speakerlist)":                                                   "stub behind the SpeakerList interface: ground-truth membership, lagging views, false suspicion",
+	"BGP session manager": "recording stub (arguments of the last Set per live session)",
+	"MetalLB controller":  "played by the environment (writes pool-consistent status addresses, clears orphaned ones)",
 }
 
 var kspkAssume = []string{
@@ -72,10 +72,9 @@ var kspkAssume = []string{
 
 const kspkRule = "Each run draws swarm knobs (2-4 nodes, memberlist on/off, exclude-label handling, BGP mode, fault kinds, lag, interleaving, map and list orders), boots one real speaker per node on a generated cluster (a quarter of the runs apply no further event), then schedules generated service/endpoint/node/advertisement/peer/pool/membership events against informer deliveries, worker steps of the three reconcilers of every speaker, speaker crashes/restarts and false suspicions."
 
-
 var kctlComponents = map[string]string{
 	"controller.SetBalancer/SetPools/convergeBalancer/allocateIPs":                    "real (compiled from the working tree, map ranges rewritten to a chosen order)",
-	"internal/allocator, k8salloc, ipfamily, internal/config (config.For)":           "real",
+	"internal/allocator, k8salloc, ipfamily, internal/config (config.For)":            "real",
 	"controllers.ServiceReconciler (reprocessAll, initial-load gate), PoolReconciler": "real",
 	"controllers.PoolStatusReconciler, k8s.Listener":                                  "real",
 	"Kubernetes API server, informer cache, work queues, rate limiter":                "simulated (simk8s)",
@@ -124,10 +123,10 @@ func spkProp(id string) propDef {
 
 var gnativeComponents = map[string]string{
 	"native.sessionManager.NewSession, session.run/connect/sendUpdates/sendKeepalives/consumeBGP/Set/Close/abort, backoff": "real goroutines, one released at a time by the simulator (sync -> simsync, go -> simrt.Go, select -> simrt.Select, time.Sleep -> simrt.Sleep)",
-	"native message codec (sendOpen/readOpen/sendUpdate/sendWithdraw/sendKeepalive)":                                   "real",
-	"TCP connection, dialMD5":                                       "simulated (simnet: ordered bytes, fragmentation, bounded buffer, deadlines on the fake clock, reset/close)",
-	"BGP peer":                                                      "scripted task decoding every byte with the independent bgpwire decoder",
-	"clock / timers":                                                "testing/synctest fake clock",
+	"native message codec (sendOpen/readOpen/sendUpdate/sendWithdraw/sendKeepalive)":                                       "real",
+	"TCP connection, dialMD5": "simulated (simnet: ordered bytes, fragmentation, bounded buffer, deadlines on the fake clock, reset/close)",
+	"BGP peer":                "scripted task decoding every byte with the independent bgpwire decoder",
+	"clock / timers":          "testing/synctest fake clock",
 }
 
 var gnativeAssume = []string{
@@ -139,16 +138,16 @@ const gnativeRule = "Each run draws session parameters (ASNs around the 2/4-byte
 
 var gfrrComponents = map[string]string{
 	"frr.NewSessionManager, debouncer goroutine, reloadValidator goroutine, NewSession/Set/Close/SyncBFDProfiles/SyncExtraInfo": "real goroutines, one released at a time by the simulator",
-	"createConfig, templateConfig (embedded templates), generateAndReloadConfigFile, writeConfig":                              "real",
-	"configuration file and reloader status file":                                                                            "simulated (simfs) with failing and torn writes",
-	"reloader signal (var reloadConfig) and the FRR reloader script":                                                         "stub: signal may fail or be slow; an asynchronous reloader task reads the file, applies or refuses it, writes the status file",
-	"FRR":                                                                                                                    "frrinterp: interpreter of the emitted subset (network, prefix-list, route-map, on-match next); anything else is reported as trouble (exit 2)",
+	"createConfig, templateConfig (embedded templates), generateAndReloadConfigFile, writeConfig":                               "real",
+	"configuration file and reloader status file":                                                                               "simulated (simfs) with failing and torn writes",
+	"reloader signal (var reloadConfig) and the FRR reloader script":                                                            "stub: signal may fail or be slow; an asynchronous reloader task reads the file, applies or refuses it, writes the status file",
+	"FRR": "frrinterp: interpreter of the emitted subset (network, prefix-list, route-map, on-match next); anything else is reported as trouble (exit 2)",
 }
 
 var gfrrk8sComponents = map[string]string{
-	"frrk8s.NewSessionManager, NewSession/Set/Close/SyncBFDProfiles, updateConfig":                  "real",
+	"frrk8s.NewSessionManager, NewSession/Set/Close/SyncBFDProfiles, updateConfig":                           "real",
 	"controllers.FRRK8sReconciler: UpdateConfig, debouncer goroutine, Reconcile (Get/CreateOrUpdate/Delete)": "real goroutines, one released at a time by the simulator",
-	"Kubernetes API server": "simulated (simk8s): every call a park point; write errors; external edits and deletes of the resource",
+	"Kubernetes API server":                        "simulated (simk8s): every call a park point; write errors; external edits and deletes of the resource",
 	"controller-runtime channel source and worker": "harness tasks (receive generic events, de-duplicating queue, requeue with back-off)",
 	"frr-k8s": "frrk8sinterp: denotation of the FRRConfiguration + structural clauses",
 }
@@ -194,8 +193,8 @@ var gl2Assume = []string{
 const gl2Rule = "Each run draws 1-2 updater tasks (2-9 announce / re-announce with changed interface scope / withdraw operations over 4 services sharing 3 addresses, IPv4 and IPv6), a LAN task injecting 3-16 frames (requests to broadcast / this MAC / a foreign MAC, replies, read errors) on 2 interfaces, the gratuitous loop on the fake clock, and write errors; the scheduler draws every interleaving."
 
 var gconcComponents = map[string]string{
-	"k8s.Listener (ServiceHandler, PoolHandler, ConfigHandler, NodeHandler) and its mutex":       "real, the mutex is scheduler-owned (simsync) and reports RaceAcquire/RaceRelease",
-	"controller.SetBalancer/SetPools, allocator incl. countersMutex, CountersForPool":            "real, built with -race",
+	"k8s.Listener (ServiceHandler, PoolHandler, ConfigHandler, NodeHandler) and its mutex":             "real, the mutex is scheduler-owned (simsync) and reports RaceAcquire/RaceRelease",
+	"controller.SetBalancer/SetPools, allocator incl. countersMutex, CountersForPool":                  "real, built with -race",
 	"speaker controller, bgpController (activeAdsMutex, PeersForService), layer2.Announce (GetStatus)": "real, built with -race",
 	"controller-runtime workers": "harness tasks: one per reconciler plus status-query tasks, released one at a time by the seeded scheduler",
 	"race detector":              "the Go race detector; the simulator's own hand-offs are hidden from it (runtime.RaceDisable, //go:norace), so only the program's own synchronisation orders accesses",
@@ -259,12 +258,12 @@ var expectedProbes = map[string][]string{
 }
 
 var selftestVariants = map[string][]string{
-	"kctl": {"", "faults=on", "crashat", "modeA"},
-	"kspk": {""},
-	"gnative": {"", "openfuzz"},
-	"gfrr": {""},
-	"gfrrk8s": {""},
-	"gl2": {""},
-	"gconc": {""},
+	"kctl":     {"", "faults=on", "crashat", "modeA"},
+	"kspk":     {""},
+	"gnative":  {"", "openfuzz"},
+	"gfrr":     {""},
+	"gfrrk8s":  {""},
+	"gl2":      {""},
+	"gconc":    {""},
 	"gconcspk": {""},
 }
